@@ -84,6 +84,8 @@ type WorkerReport struct {
 	Rule        string            `json:"rule"`
 	Assumptions []string          `json:"assumptions"`
 	ShrinkRuns  int               `json:"shrink_runs"`
+	Reruns      int               `json:"reruns"`           // scenarios re-executed at the end of the worker, out of their original order
+	RerunDiffs  int               `json:"rerun_mismatches"` // ... whose event-log hash differed (state leaking between runs)
 }
 
 type fakeTB struct {
@@ -91,20 +93,23 @@ type fakeTB struct {
 	msgs   []string
 }
 
-func (f *fakeTB) Helper()                         {}
-func (f *fakeTB) Name() string                    { return "verif" }
-func (f *fakeTB) Logf(string, ...any)             {}
-func (f *fakeTB) Log(...any)                      {}
-func (f *fakeTB) Skipf(string, ...any)            {}
-func (f *fakeTB) Skip(...any)                     {}
-func (f *fakeTB) SkipNow()                        {}
-func (f *fakeTB) Errorf(format string, a ...any)  { f.failed = true; f.msgs = append(f.msgs, fmt.Sprintf(format, a...)) }
-func (f *fakeTB) Error(a ...any)                  { f.failed = true; f.msgs = append(f.msgs, fmt.Sprint(a...)) }
-func (f *fakeTB) Fatalf(format string, a ...any)  { f.Errorf(format, a...) }
-func (f *fakeTB) Fatal(a ...any)                  { f.Error(a...) }
-func (f *fakeTB) FailNow()                        {}
-func (f *fakeTB) Fail()                           { f.failed = true }
-func (f *fakeTB) Failed() bool                    { return f.failed }
+func (f *fakeTB) Helper()              {}
+func (f *fakeTB) Name() string         { return "verif" }
+func (f *fakeTB) Logf(string, ...any)  {}
+func (f *fakeTB) Log(...any)           {}
+func (f *fakeTB) Skipf(string, ...any) {}
+func (f *fakeTB) Skip(...any)          {}
+func (f *fakeTB) SkipNow()             {}
+func (f *fakeTB) Errorf(format string, a ...any) {
+	f.failed = true
+	f.msgs = append(f.msgs, fmt.Sprintf(format, a...))
+}
+func (f *fakeTB) Error(a ...any)                 { f.failed = true; f.msgs = append(f.msgs, fmt.Sprint(a...)) }
+func (f *fakeTB) Fatalf(format string, a ...any) { f.Errorf(format, a...) }
+func (f *fakeTB) Fatal(a ...any)                 { f.Error(a...) }
+func (f *fakeTB) FailNow()                       {}
+func (f *fakeTB) Fail()                          { f.failed = true }
+func (f *fakeTB) Failed() bool                   { return f.failed }
 
 func envInt(k string, d int64) int64 {
 	v := os.Getenv(k)
@@ -189,6 +194,11 @@ func Main(t *testing.T, p Prop) {
 	var lastSc interface{}
 	var lastOut *Outcome
 	shrinking := false
+	type kept struct {
+		sc   interface{}
+		hash string
+	}
+	var keep []kept
 
 	prop := func(rt *rapid.T) {
 		sc := p.Draw(rt)
@@ -212,6 +222,9 @@ func Main(t *testing.T, p Prop) {
 			}
 			for k := range o.Pairs {
 				pairs[k] = struct{}{}
+			}
+			if len(keep) < 40 && o.Class == "" {
+				keep = append(keep, kept{sc, o.LogHash})
 			}
 			if len(rep.Samples) < 3 && o.Nontrivial {
 				if b, err := json.Marshal(sc); err == nil {
@@ -270,6 +283,17 @@ func Main(t *testing.T, p Prop) {
 			}
 			rep.Violation = rf
 			break
+		}
+	}
+	if rep.Violation == nil {
+		// self-check: re-execute the first scenarios after everything else ran; a different event log means
+		// state leaks from one run into the next (replays would then depend on history)
+		for i := len(keep) - 1; i >= 0; i-- {
+			o := p.Run(t, keep[i].sc, false)
+			rep.Reruns++
+			if o.LogHash != keep[i].hash {
+				rep.RerunDiffs++
+			}
 		}
 	}
 	rep.WallS = time.Since(start).Seconds()
@@ -397,10 +421,14 @@ func FromResult(res *simrt.Result) *Outcome {
 	o := &Outcome{LogHash: res.LogHash, Log: res.Log, Steps: res.Steps, Switches: res.Switches, Tasks: res.Tasks,
 		SimTimeNs: res.SimTimeNs, Counts: res.Counts, Pairs: res.Pairs}
 	o.Nontrivial = res.Tasks >= 2 && res.Switches >= 1
-	if res.Violation != nil {
-		o.Class, o.Msg = res.Violation.Class, res.Violation.Msg
-	} else if len(res.Panics) > 0 {
+	if len(res.Panics) > 0 {
+		// a panic inside a task is the root cause of whatever the oracles saw afterwards
 		o.Class, o.Msg = "panic", strings.Join(res.Panics, "; ")
+		if res.Violation != nil {
+			o.Msg += " (then: " + res.Violation.Class + ")"
+		}
+	} else if res.Violation != nil {
+		o.Class, o.Msg = res.Violation.Class, res.Violation.Msg
 	} else if res.Budget {
 		o.Class, o.Msg = "step-budget", "scheduling step budget exceeded (livelock or runaway)"
 	}
